@@ -1062,4 +1062,162 @@ theorem express_keys_nodup {g : Genome ν} (hw : WFG g) (ctx : List Nat) : ((exp
     List.Nodup.sublist (List.Sublist.map _ List.filter_sublist) hw
   exact this
 
+/-! ### replication in an unauthorised lineage -/
+
+theorem mutateList_unauthorised {env : Env ν} {d : Nat} (muts : List (Nat × ν)) :
+    ∀ {k : Nat} {g g' : Genome ν} {k' d' : Nat}, g.allow = false → NeverApproves env g →
+      mutateList env d k g muts = .ok g' k' d' → g'.genes = g.genes ∧ g'.allow = g.allow ∧ g'.cb = g.cb := by
+  induction muts with
+  | nil => intro k g g' k' d' _ _ h; simp [mutateList] at h; rw [← h.1]; exact ⟨rfl, rfl, rfl⟩
+  | cons p rest ih =>
+    intro k g g' k' d' hal hna h
+    unfold mutateList at h
+    split at h
+    · rename_i g₁ b k₁ hm
+      obtain ⟨h1, h2, h3, -⟩ := mutate_unauthorised hal hna hm
+      have hna₁ : NeverApproves env g₁ := by intro c hc; exact hna c (h3 ▸ hc)
+      obtain ⟨e1, e2, e3⟩ := ih (h2.trans hal) hna₁ h
+      exact ⟨e1.trans h1, e2.trans h2, e3.trans h3⟩
+    · cases h
+
+theorem randomPass_unauthorised {env : Env ν} (names : List Nat) :
+    ∀ {k d : Nat} {g g' : Genome ν} {k' d' : Nat}, g.allow = false → NeverApproves env g →
+      randomPass env k d g names = .ok g' k' d' → g'.genes = g.genes ∧ g'.allow = g.allow ∧ g'.cb = g.cb := by
+  induction names with
+  | nil => intro k d g g' k' d' _ _ h; simp [randomPass] at h; rw [← h.1]; exact ⟨rfl, rfl, rfl⟩
+  | cons n rest ih =>
+    intro k d g g' k' d' hal hna h
+    unfold randomPass at h
+    split at h
+    · exact ih hal hna h
+    · split at h
+      · exact ih hal hna h
+      · split at h
+        · rename_i g₁ b k₁ hm
+          obtain ⟨h1, h2, h3, -⟩ := mutate_unauthorised hal hna hm
+          have hna₁ : NeverApproves env g₁ := by intro c hc; exact hna c (h3 ▸ hc)
+          obtain ⟨e1, e2, e3⟩ := ih (h2.trans hal) hna₁ h
+          exact ⟨e1.trans h1, e2.trans h2, e3.trans h3⟩
+        · cases h
+
+theorem replicate_unauthorised {env : Env ν} {k d : Nat} {p c : Genome ν} {muts : List (Nat × ν)} {inh : Bool}
+    {k' d' : Nat} (hw : WFG p) (hal : p.allow = false) (hna : NeverApproves env p)
+    (h : replicate env k d p muts inh = .ok c k' d') : c.genes = p.genes ∧ c.allow = false ∧ c.cb = p.cb := by
+  obtain ⟨hbg, -, hba, hbc, -⟩ := childBase_spec inh hw
+  have hal₀ : (childBase p inh).allow = false := hba.trans hal
+  have hna₀ : NeverApproves env (childBase p inh) := by intro c hc; exact hna c (hbc ▸ hc)
+  unfold replicate at h
+  split at h
+  · cases h
+  · rename_i c₁ k₁ d₁ hm
+    obtain ⟨h1, h2, h3⟩ := mutateList_unauthorised muts hal₀ hna₀ hm
+    split at h
+    · have hna₁ : NeverApproves env c₁ := by intro c hc; exact hna₀ c (h3 ▸ hc)
+      obtain ⟨e1, e2, e3⟩ := randomPass_unauthorised _ (h2.trans hal₀) hna₁ h
+      exact ⟨(e1.trans h1).trans hbg, (e2.trans h2).trans hal₀, (e3.trans h3).trans hbc⟩
+    · cases h; exact ⟨h1.trans hbg, h2.trans hal₀, h3.trans hbc⟩
+
+/-! ### the canonical list identifies the name → value map -/
+
+theorem insertKV_perm (p : Nat × ν) (l : List (Nat × ν)) : (insertKV p l).Perm (p :: l) := by
+  induction l with
+  | nil => exact List.Perm.refl _
+  | cons q t ih =>
+    unfold insertKV
+    split
+    · exact List.Perm.refl _
+    · exact (List.Perm.cons q ih).trans (List.Perm.swap p q t)
+
+theorem sortKV_perm (l : List (Nat × ν)) : (sortKV l).Perm l := by
+  induction l with
+  | nil => exact List.Perm.refl _
+  | cons p t ih => exact (insertKV_perm p (sortKV t)).trans (List.Perm.cons p ih)
+
+theorem insertKV_sorted (p : Nat × ν) (l : List (Nat × ν)) (h : l.Pairwise (fun a b => a.1 ≤ b.1)) :
+    (insertKV p l).Pairwise (fun a b => a.1 ≤ b.1) := by
+  induction l with
+  | nil => simp [insertKV]
+  | cons q t ih =>
+    unfold insertKV
+    rw [List.pairwise_cons] at h
+    split
+    · rename_i hle
+      refine List.pairwise_cons.mpr ⟨?_, List.pairwise_cons.mpr h⟩
+      intro b hb
+      rcases List.mem_cons.mp hb with rfl | hb
+      · exact hle
+      · exact Nat.le_trans hle (h.1 b hb)
+    · rename_i hnle
+      refine List.pairwise_cons.mpr ⟨?_, ih h.2⟩
+      intro b hb
+      rcases List.mem_cons.mp ((insertKV_perm p t).subset hb) with rfl | hb
+      · exact Nat.le_of_lt (Nat.lt_of_not_le hnle)
+      · exact h.1 b hb
+
+theorem sortKV_sorted (l : List (Nat × ν)) : (sortKV l).Pairwise (fun a b => a.1 ≤ b.1) := by
+  induction l with
+  | nil => simp [sortKV]
+  | cons p t ih => exact insertKV_sorted p _ ih
+
+theorem table_keys (g : Genome ν) : (table g).map (·.1) = g.genes.map (·.name) := by
+  simp [table, List.map_map, Function.comp_def]
+
+theorem mem_table_iff {g : Genome ν} (hw : WFG g) (n : Nat) (v : ν) : (n, v) ∈ table g ↔ valueOf g n = some v := by
+  unfold table valueOf
+  simp only [List.mem_map, Prod.mk.injEq, Option.map_eq_some_iff]
+  constructor
+  · rintro ⟨x, hx, hn, hv⟩
+    exact ⟨x, hn ▸ findGene_of_mem_nodup hw hx, hv⟩
+  · rintro ⟨x, hf, hv⟩
+    exact ⟨x, findGene_some_mem hf, findGene_some_name hf, hv⟩
+
+theorem eq_of_key_eq {l : List (Nat × ν)} (hnd : (l.map (·.1)).Nodup) {a b : Nat × ν} (ha : a ∈ l) (hb : b ∈ l)
+    (hk : a.1 = b.1) : a = b := by
+  induction l with
+  | nil => cases ha
+  | cons c t ih =>
+    simp only [List.map_cons, List.nodup_cons] at hnd
+    rcases List.mem_cons.mp ha with ha' | ha' <;> rcases List.mem_cons.mp hb with hb' | hb'
+    · rw [ha', hb']
+    · exact absurd (show c.1 ∈ t.map (·.1) from List.mem_map.mpr ⟨b, hb', by rw [← hk, ha']⟩) hnd.1
+    · exact absurd (show c.1 ∈ t.map (·.1) from List.mem_map.mpr ⟨a, ha', by rw [hk, hb']⟩) hnd.1
+    · exact ih hnd.2 ha' hb'
+
+theorem nodup_of_nodup_keys {l : List (Nat × ν)} (hnd : (l.map (·.1)).Nodup) : l.Nodup := by
+  induction l with
+  | nil => simp
+  | cons c t ih =>
+    simp only [List.map_cons, List.nodup_cons] at hnd ⊢
+    exact ⟨fun h => hnd.1 (List.mem_map.mpr ⟨c, h, rfl⟩), ih hnd.2⟩
+
+/-- Two genomes have the same canonical list iff they store the same value (or none) under every name —
+    whatever the insertion order of their gene tables. -/
+theorem canon_eq_iff {g₁ g₂ : Genome ν} (hw₁ : WFG g₁) (hw₂ : WFG g₂) :
+    canon g₁ = canon g₂ ↔ ∀ n, valueOf g₁ n = valueOf g₂ n := by
+  have hk₁ : ((table g₁).map (·.1)).Nodup := by rw [table_keys]; exact hw₁
+  have hk₂ : ((table g₂).map (·.1)).Nodup := by rw [table_keys]; exact hw₂
+  constructor
+  · intro h n
+    have hp : (table g₁).Perm (table g₂) := by
+      have := (sortKV_perm (table g₁)).symm.trans ((show sortKV (table g₁) = sortKV (table g₂) from h) ▸ sortKV_perm (table g₂))
+      exact this
+    cases h₁ : valueOf g₁ n with
+    | some v => exact ((mem_table_iff hw₂ n v).mp (hp.subset ((mem_table_iff hw₁ n v).mpr h₁))).symm
+    | none =>
+      cases h₂ : valueOf g₂ n with
+      | none => rfl
+      | some v =>
+        have := (mem_table_iff hw₁ n v).mp (hp.symm.subset ((mem_table_iff hw₂ n v).mpr h₂))
+        rw [h₁] at this; cases this
+  · intro h
+    have hp : (table g₁).Perm (table g₂) := by
+      rw [List.perm_ext_iff_of_nodup (nodup_of_nodup_keys hk₁) (nodup_of_nodup_keys hk₂)]
+      rintro ⟨n, v⟩
+      rw [mem_table_iff hw₁, mem_table_iff hw₂, h n]
+    have hpc : (canon g₁).Perm (canon g₂) := (sortKV_perm _).trans (hp.trans (sortKV_perm _).symm)
+    have hkc : ((canon g₁).map (·.1)).Nodup := ((sortKV_perm (table g₁)).map _).nodup_iff.mpr hk₁
+    refine List.Perm.eq_of_pairwise (le := fun a b => a.1 ≤ b.1) ?_ (sortKV_sorted _) (sortKV_sorted _) hpc
+    intro a b ha hb hab hba
+    exact eq_of_key_eq hkc ha (hpc.symm.subset hb) (Nat.le_antisymm hab hba)
+
 end Operon.Genome
